@@ -89,7 +89,7 @@ def run(prop, tier):
     if len(cases) < 5000:
         raise vlib.Undecided('APIMisuse enumeration produced %d cases' % len(cases))
     reps = 1 if tier == 'quick' else 4
-    jobs = [{'kind': 'misuse', 'seed': seed * 1000003 + i + 7919 * r, 'case': c} for r in range(reps) for i, c in enumerate(cases)]
+    jobs = [{'kind': 'misuse', 'seed': vlib.jseed(seed, i, r), 'case': c} for r in range(reps) for i, c in enumerate(cases)]
     vh = vlib.build_vh()
     results, died = run_jobs_in_children(ck, vh, jobs)
     collect(ck, results, died, 'misuse')
